@@ -1103,12 +1103,20 @@ fn main() {
         ctx.rep.sample(json!({ "ops": hist_text(h), "real": r.iter().map(|x| x.to_json()).collect::<Vec<_>>() }));
     }
 
-    // 1b. the concrete emitter model against the real emit_js (stream `emit-concrete:*`, c19/concrete.rs)
-    {
+    // 1b. the concrete emitter model against the real emit_js (stream `emit-concrete:*`, c19/concrete.rs): on its own
+    //     thread, with its own driver process and worker children, while the streams below run; merged before `finish`
+    let concrete_thread = {
         let exe = std::env::current_exe().expect("current_exe");
         let mut crng = rng.fork();
-        concrete::run(&mut ctx.rep, &mut ctx.drv, &exe, &mut crng, thorough);
-    }
+        let driver_path = args.driver.clone();
+        std::thread::spawn(move || {
+            let mut crep = Report::new("C19", RULE);
+            let mut drv = Driver::spawn(&driver_path);
+            concrete::run(&mut crep, &mut drv, &exe, &mut crng, thorough);
+            crep.extra.insert("concrete_model_requests".into(), json!(drv.requests));
+            crep
+        })
+    };
 
     // 2. exhaustive
     let full = full_alphabet();
@@ -1152,6 +1160,20 @@ fn main() {
         ctx.rep.sample(json!({ "ops": hist_text(h), "real": r.iter().map(|x| x.to_json()).collect::<Vec<_>>() }));
     }
     let _ = (fd.sampled, ctx.samples_random);
+
+    let crep = concrete_thread.join().expect("concrete stream thread");
+    ctx.rep.k_cases += crep.k_cases;
+    ctx.rep.evaluations += crep.evaluations;
+    for (k, n) in &crep.dist {
+        ctx.rep.count_n(k, *n);
+    }
+    for f in crep.failures {
+        if !ctx.rep.failures.iter().any(|g| g.stream == f.stream && g.signature == f.signature) {
+            ctx.rep.failures.push(f);
+        }
+    }
+    ctx.rep.notes.extend(crep.notes);
+    ctx.rep.extra.extend(crep.extra);
 
     ctx.rep.exhaustive = true;
     ctx.rep.extra.insert("exhaustive_full_len".into(), json!(full_n));
